@@ -379,8 +379,16 @@ fn gen(rng: &mut Rng, _i: u64) -> String {
 		},
 		2 => {
 			// stress shapes: deep nesting, long skips, many saves, adjacent operators
-			let s: String = match rng.below(10) {
+			let s: String = match rng.below(13) {
 				8 | 9 => unbalanced_text(rng),
+				// the limits of the other save-allocating operators and of the alternative offsets (each has its own check in the parser)
+				10 => format!("{}", (*rng.pick(&["i1 ", "u2 ", "z ", "i4 ", "u1 ", "' i1 z "])).repeat(rng.range(84, 258) as usize)),
+				11 => match rng.below(3) {
+					0 => format!("( {}| 01 ) 02", "00 ".repeat(rng.range(250, 260) as usize)),
+					1 => format!("( 01 | {}| 03 ) 02", "? 00 ".repeat(rng.range(125, 130) as usize)),
+					_ => format!("( {}| 01 ) 02", "' ".repeat(rng.range(250, 260) as usize)),
+				},
+				12 => (*rng.pick(&["00 [5-x] 01", "00 [5-6x] 01", "00 [5-", "00 [5", "00 [", "00 [x] 01", "00 [5-6", "00 [-5] 01", "00 [5--6] 01", "(00", "(00|01", "((00)", "(00))", "00)", "(", "|", "00|01", "(|", "()", "%(", "${(00}", "${(00})", "i", "u", "i3", "u8", "@", "@!", "\"ab", "'\"", "0", "0g", "g0"])).to_string(),
 				0 => "${".repeat(rng.range(250, 260) as usize),
 				1 => "'".repeat(rng.range(250, 258) as usize),
 				2 => {
